@@ -230,7 +230,7 @@ Record Inv (w : world) (a : adf) (U : list nat) (stk : list frame) : Prop := mkI
   inv_L : forall n, cnt n (ledger a) = tsum (gn n) a;
   inv_F : forall i k, In (FLoop i k) stk -> in_use (slot_at a i) = 1;
   inv_N : forall i j ni nj, in_use (slot_at a i) <> 0 -> In j (links (slot_at a i)) ->
-            fname (slot_at a i) = Some ni -> fname (slot_at a j) = Some nj -> has_link w ni nj = true
+            fname (slot_at a i) = Some ni -> fname (slot_at a j) = Some nj -> has_any_link w ni nj = true
 }.
 
 Lemma Inv_same w a b U stk :
@@ -738,7 +738,7 @@ Qed.
 (* ADFI_link_add(cur, li, found = 1): the link file was already open *)
 Lemma link_add_found_inv w a U cur li nm n :
   Inv w a U [] -> in_use (slot_at a cur) <> 0 -> in_use (slot_at a li) <> 0 ->
-  fname (slot_at a cur) = Some nm -> fname (slot_at a li) = Some n -> has_link w nm n = true ->
+  fname (slot_at a cur) = Some nm -> fname (slot_at a li) = Some n -> has_any_link w nm n = true ->
   Inv w (link_add a cur li true) U [].
 Proof.
   intros H Hc Hl Nc Nl Hw. unfold link_add.
@@ -807,7 +807,7 @@ Qed.
 (* ADFI_link_add(cur, li, found = 0): the link file has just been opened for this link *)
 Lemma link_add_new_inv w a U cur li nm n :
   Inv w a (li :: U) [] -> cur <> li -> in_use (slot_at a cur) <> 0 -> in_use (slot_at a li) = 1 ->
-  fname (slot_at a cur) = Some nm -> fname (slot_at a li) = Some n -> has_link w nm n = true ->
+  fname (slot_at a cur) = Some nm -> fname (slot_at a li) = Some n -> has_any_link w nm n = true ->
   Inv w (link_add a cur li false) U [].
 Proof.
   intros H Hne Hc Hl Nc Nl Hw. unfold link_add.
@@ -911,38 +911,45 @@ Qed.
 Lemma Inv_set_cache w a U stk c : Inv w a U stk -> Inv w (set_cache a c) U stk.
 Proof. intros H. apply (Inv_same w a); auto. Qed.
 
-Lemma chase_inv w a U fuel cur n a' r :
-  Inv w a U [] -> chase Cur fuel w a cur n = Some (a', r) -> Inv w a' U [].
+Lemma chase_inv w a U fuel cur n dang a' r :
+  Inv w a U [] -> chase Cur fuel w a cur n dang = Some (a', r) -> Inv w a' U [].
 Proof.
   intros H. unfold chase.
   destruct ((length (tab a) <=? cur) || Nat.eqb (in_use (slot_at a cur)) 0) eqn:Bad; [intros Q; inversion Q; subst; exact H|].
   apply orb_false_elim in Bad. destruct Bad as [_ Bu]. apply Nat.eqb_neq in Bu.
   destruct (fname (slot_at a cur)) as [nm|] eqn:Nc; [|intros Q; inversion Q; subst; exact H].
-  destruct (has_link w nm n) eqn:Hw; simpl; [|intros Q; inversion Q; subst; exact H].
+  destruct (if dang then has_dlink w nm n else has_link w nm n) eqn:Hw0; simpl; [|intros Q; inversion Q; subst; exact H].
+  assert (Hw : has_any_link w nm n = true).
+  { unfold has_any_link. destruct dang; rewrite Hw0; [apply orb_true_r|reflexivity]. }
   destruct (match lcache a with
-            | Some (c, m, li) => if Nat.eqb c cur && Nat.eqb m n then Some li else None
+            | Some (c, m, li) => if Nat.eqb c cur && Nat.eqb m n && negb dang then Some li else None
             | None => None
             end) as [hli|].
   { destruct ((length (tab a) <=? hli) || Nat.eqb (in_use (slot_at a hli)) 0); intros Q; inversion Q; subst; exact H. }
   assert (G : match find_name (tab a) n with
-        | Some li => Some (set_cache (link_add a cur li true) (Some (cur, n, li)), Some li)
+        | Some li => let a1 := link_add a cur li true in
+                     if dang then Some (a1, None) else Some (set_cache a1 (Some (cur, n, li)), Some li)
         | None => match adf_database_open Cur fuel w a n true with
                   | None => None
                   | Some (a1, None) => Some (a1, None)
-                  | Some (a1, Some li) => Some (set_cache (link_add a1 cur li false) (Some (cur, n, li)), Some li)
+                  | Some (a1, Some li) => let a2 := link_add a1 cur li false in
+                                          if dang then Some (a2, None) else Some (set_cache a2 (Some (cur, n, li)), Some li)
                   end
         end = Some (a', r) -> Inv w a' U []).
   { destruct (find_name (tab a) n) as [li|] eqn:Fn.
-    - intros Q. inversion Q; subst. destruct (find_name_spec _ _ _ Fn) as (A & B & C).
-      apply Inv_set_cache. eapply link_add_found_inv; eauto.
+    - destruct (find_name_spec _ _ _ Fn) as (A & B & C).
+      assert (I1 : Inv w (link_add a cur li true) U []) by (eapply link_add_found_inv; eauto).
+      simpl. destruct dang; intros Q; inversion Q; subst; [exact I1|apply Inv_set_cache; exact I1].
     - destruct (adf_database_open Cur fuel w a n true) as [[a1 [li|]]|] eqn:Op; [| |discriminate].
-      + intros Q. inversion Q; subst. destruct (adf_open_inv _ _ _ _ _ _ _ _ H Op) as (Hi & Z & E1 & E2).
+      + destruct (adf_open_inv _ _ _ _ _ _ _ _ H Op) as (Hi & Z & E1 & E2).
         assert (cur <> li) by (intros ->; congruence).
-        apply Inv_set_cache. eapply (link_add_new_inv w a1 U cur li nm n); eauto.
-        * rewrite E2 by auto. exact Bu.
-        * rewrite E1. reflexivity.
-        * rewrite E2 by auto. exact Nc.
-        * rewrite E1. reflexivity.
+        assert (I1 : Inv w (link_add a1 cur li false) U []).
+        { eapply (link_add_new_inv w a1 U cur li nm n); eauto.
+          * rewrite E2 by auto. exact Bu.
+          * rewrite E1. reflexivity.
+          * rewrite E2 by auto. exact Nc.
+          * rewrite E1. reflexivity. }
+        simpl. destruct dang; intros Q; inversion Q; subst; [exact I1|apply Inv_set_cache; exact I1].
       + intros Q. inversion Q; subst. exact (adf_open_inv _ _ _ _ _ _ _ _ H Op). }
   destruct (kind_of w n); try exact G; intros Q; inversion Q; subst; exact H.
 Qed.
@@ -950,9 +957,9 @@ Qed.
 Lemma walk_inv w U fuel chain : forall a cur a' ok,
   Inv w a U [] -> walk Cur fuel w a cur chain = Some (a', ok) -> Inv w a' U [].
 Proof.
-  induction chain as [|n r IH]; intros a cur a' ok H; simpl.
+  induction chain as [|[n dang] r IH]; intros a cur a' ok H; simpl.
   - intros Q. inversion Q; subst. exact H.
-  - destruct (chase Cur fuel w a cur n) as [[a1 [li|]]|] eqn:Ch; [| |discriminate].
+  - destruct (chase Cur fuel w a cur n dang) as [[a1 [li|]]|] eqn:Ch; [| |discriminate].
     + intros Q. eapply IH; [|exact Q]. eapply chase_inv; eauto.
     + intros Q. inversion Q; subst. eapply chase_inv; eauto.
 Qed.
@@ -1214,9 +1221,9 @@ Proof. intros. eapply adf_open_fail_ledger; eauto. Qed.
    (the first one on to B).  Closing the first C handle closes B although A (still open, still linking to it) remains;
    closing A then reports ADF_FILE_NOT_OPENED (its links[] names the dead slot) AFTER having dropped A's reference, so
    cgio keeps the slot: every file has been closed by its user and one cgio handle is held for ever. *)
-Definition w1 : world := mkW [KOk; KOk; KOk] [(0, 1); (2, 0)].
+Definition w1 : world := mkW [KOk; KOk; KOk] [(0, 1); (2, 0)] [].
 Definition ops1 : list op :=
-  [OOpen 0 false; OOpen 2 false; OOpen 2 false; OWalk 2 [0; 1]; OWalk 3 [0]; OClose 2; OClose 1; OClose 3].
+  [OOpen 0 false; OOpen 2 false; OOpen 2 false; OWalk 2 [(0, false); (1, false)]; OWalk 3 [(0, false)]; OClose 2; OClose 1; OClose 3].
 
 
 (* evaluate a concrete run, then read the claims off the resulting state (no existential variables under vm_compute) *)
@@ -1241,14 +1248,14 @@ Qed.
 
 (* the moment of the premature close: A (slot 0) is in use and lists slot 2 in links[], slot 2 (B) is closed *)
 Lemma refuted_premature_close :
-  exists s rs, run Old 1000 w1 io_init [] [OOpen 0 false; OOpen 2 false; OWalk 2 [0; 1]; OClose 2] = Some (s, [1], rs) /\
+  exists s rs, run Old 1000 w1 io_init [] [OOpen 0 false; OOpen 2 false; OWalk 2 [(0, false); (1, false)]; OClose 2] = Some (s, [1], rs) /\
                in_use (slot_at (io_adf s) 0) = 1 /\ links (slot_at (io_adf s) 0) = [2] /\
                in_use (slot_at (io_adf s) 2) = 0 /\ ledger (io_adf s) = [0].
 Proof. run_concrete. repeat split; reflexivity. Qed.
 
 (* W2: two files that link to each other.  ADFI_close_file never returns, whatever the fuel (the C: stack overflow). *)
-Definition w2 : world := mkW [KOk; KOk] [(0, 1); (1, 0)].
-Definition ops2 : list op := [OOpen 0 false; OWalk 1 [1; 0]; OClose 1].
+Definition w2 : world := mkW [KOk; KOk] [(0, 1); (1, 0)] [].
+Definition ops2 : list op := [OOpen 0 false; OWalk 1 [(1, false); (0, false)]; OClose 1].
 Definition a2 : adf := mkadf [mkslot 2 true (Some 0) [1]; mkslot 1 true (Some 1) [0]; free_slot; free_slot; free_slot] [1; 0]
                             (Some (1, 0, 0)).
 
@@ -1271,7 +1278,7 @@ Proof.
                   [Some 0; None; None; None; None] 1).
   set (s2 := mkio a2 [Some 0; None; None; None; None] 1).
   assert (S1 : step Old fuel w2 io_init (OOpen 0 false) = Some (s1, ResOpen (Some 1))) by reflexivity.
-  assert (S2 : step Old fuel w2 s1 (OWalk 1 [1; 0]) = Some (s2, ResWalk true)) by reflexivity.
+  assert (S2 : step Old fuel w2 s1 (OWalk 1 [(1, false); (0, false)]) = Some (s2, ResWalk true)) by reflexivity.
   assert (S3 : step Old fuel w2 s2 (OClose 1) = None).
   { unfold step, cgio_close_file, s2. cbn [iol io_adf length nth Nat.leb tab a2]. unfold adfi_close_file.
     destruct (cycle_diverges fuel [FEnter 0] 0 I) as [m ->]. reflexivity. }
@@ -1430,15 +1437,15 @@ Proof. exact mll_released_fixed. Qed.
 
 Lemma w1_acyclic : acyclic w1 (fun n => match n with 2 => 2 | 0 => 1 | _ => 0 end).
 Proof.
-  intros a b H. unfold has_link, w1 in H. simpl in H.
+  intros a b H. unfold has_any_link, has_link, has_dlink, w1 in H. simpl in H.
   destruct a as [|[|[|a]]]; destruct b as [|[|[|b]]]; simpl in H; try discriminate; lia.
 Qed.
 
 Lemma invariant_example :
-  exists s rs, run Cur 1000 w1 io_init [] [OOpen 0 false; OOpen 2 false; OWalk 2 [0; 1]] = Some (s, [2; 1], rs) /\
+  exists s rs, run Cur 1000 w1 io_init [] [OOpen 0 false; OOpen 2 false; OWalk 2 [(0, false); (1, false)]] = Some (s, [2; 1], rs) /\
                IOInv w1 s [2; 1] /\ in_use (slot_at (io_adf s) 0) = 2 /\ ledger (io_adf s) = [1; 2; 0].
 Proof.
-  destruct (run Cur 1000 w1 io_init [] [OOpen 0 false; OOpen 2 false; OWalk 2 [0; 1]]) as [[[s p] rs]|] eqn:E;
+  destruct (run Cur 1000 w1 io_init [] [OOpen 0 false; OOpen 2 false; OWalk 2 [(0, false); (1, false)]]) as [[[s p] rs]|] eqn:E;
     [|vm_compute in E; discriminate].
   pose proof (run_inv _ _ _ _ _ _ _ _ (IOInv_init w1) E) as I.
   vm_compute in E. inversion E; subst. eexists. eexists. split; [reflexivity|]. split; [exact I|]. split; reflexivity.
@@ -1455,4 +1462,45 @@ Lemma refcount_balanced_cur_refuted : ~ refcount_balanced Cur.
 Proof.
   intros H. destruct fixA_cycle_leaks as (s & rs & Rn & L & _). destruct (H _ _ _ _ _ Rn) as (_ & Hl & _).
   rewrite L in Hl. discriminate.
+Qed.
+
+(* ============================================================================================ dangling paths *)
+(* a link whose FILE exists and whose stored PATH does not: the traversal fails ... *)
+Lemma chase_dangling_fails v fuel w a cur n a' r : chase v fuel w a cur n true = Some (a', r) -> r = None.
+Proof.
+  unfold chase.
+  destruct ((length (tab a) <=? cur) || Nat.eqb (in_use (slot_at a cur)) 0); [intros Q; inversion Q; reflexivity|].
+  destruct (fname (slot_at a cur)) as [nm|]; [|intros Q; inversion Q; reflexivity].
+  destruct (has_dlink w nm n); simpl; [|intros Q; inversion Q; reflexivity].
+  assert (E : match lcache a with
+              | Some (c, m, li) => if Nat.eqb c cur && Nat.eqb m n && false then Some li else None
+              | None => None
+              end = None).
+  { destruct (lcache a) as [[[c m] li]|]; [rewrite andb_false_r|]; reflexivity. }
+  rewrite E.
+  destruct (kind_of w n); try (intros Q; inversion Q; reflexivity);
+    (destruct (find_name (tab a) n); [intros Q; inversion Q; reflexivity|];
+     destruct (adf_database_open v fuel w a n true) as [[a1 [li|]]|]; intros Q; inversion Q; reflexivity).
+Qed.
+
+(* ... and what it opened on the way is owned: the reference-count invariant (every open file is accounted for by a
+   handle or by a link entry of a file in use) still holds, so the file is released when the referencing file closes.
+   This is the order open -> ADFI_link_add -> path lookup of ADFI_chase_link. *)
+Lemma failing_lookup_owned w a U fuel cur n a' r :
+  Inv w a U [] -> chase Cur fuel w a cur n true = Some (a', r) -> r = None /\ Inv w a' U [].
+Proof. intros H C. split; [eapply chase_dangling_fails; eauto|eapply chase_inv; eauto]. Qed.
+
+(* file 0 links to the existing file 1 with a path that does not exist there: the lookup fails, file 1 is open and listed in
+   links[] of file 0; closing file 0 releases both *)
+Definition w3 : world := mkW [KOk; KOk] [] [(0, 1)].
+Lemma dangling_example :
+  exists s rs, run Cur 1000 w3 io_init [] [OOpen 0 false; OWalk 1 [(1, true)]] = Some (s, [1], rs) /\
+               rs = [ResOpen (Some 1); ResWalk false] /\ ledger (io_adf s) = [1; 0] /\ links (slot_at (io_adf s) 0) = [1] /\
+  exists s' rs', run Cur 1000 w3 io_init [] [OOpen 0 false; OWalk 1 [(1, true)]; OClose 1] = Some (s', [], rs') /\ cleanb s' = true.
+Proof.
+  destruct (run Cur 1000 w3 io_init [] [OOpen 0 false; OWalk 1 [(1, true)]]) as [[[s p] rs]|] eqn:E; [|vm_compute in E; discriminate].
+  vm_compute in E. inversion E; subst. clear E. eexists. eexists. split; [reflexivity|].
+  split; [reflexivity|]. split; [reflexivity|]. split; [reflexivity|].
+  destruct (run Cur 1000 w3 io_init [] [OOpen 0 false; OWalk 1 [(1, true)]; OClose 1]) as [[[s' p'] rs']|] eqn:E2; [|vm_compute in E2; discriminate].
+  vm_compute in E2. inversion E2; subst. eexists. eexists. split; reflexivity.
 Qed.
